@@ -23,6 +23,9 @@ import (
 //   emits <k> (<res> <nAS> <cid> <flag> <csec> <dcid> <dcsec>)*k
 //        a HISTORY of k SetOAuthResourceMetadata calls on ONE server, then a real 401: the client must read the LAST
 //        accepted configuration
+//   emitx <step> …   like emits, with the OTHER setters interleaved in any order: M:<7 fields joined by ':'> =
+//        SetOAuthResourceMetadata, K = SetOAuthPkce, P:<prefix> = SetPrefix, A = SetAuthenticate. The model line is the
+//        `emits` line of the M steps alone (the other setters must not touch the challenge)
 //   build <url> <cid> <flag> <csec> <dcid> <dcsec>
 //        buildWWWAuthenticate on an arbitrary (unvalidated) URL and field values, then the six parsers.
 //   validate <res> <nAS> <cid> <flag> <csec> <dcid> <dcsec>      OAuthResourceMetadata.Validate
@@ -48,7 +51,7 @@ func init() {
 					continue
 				}
 				switch f[0] {
-				case "emits":
+				case "emits", "emitx":
 					return true
 				case "emit":
 					if len(f) == 8 && (f[3] != "x" || f[4] == "true" || f[5] != "x" || f[6] != "x" || f[7] != "x") {
@@ -338,6 +341,43 @@ func c28Gen(g *Gen) {
 			}
 			lines = append(lines, hist)
 		}
+		if r.Chance(50) { // every setter that could touch the challenge, in any order
+			k := r.Range(2, 6)
+			toks := []string{}
+			curRes := Pick(r, []string{res, "https://gw.example.com/tenants/acme/vgi", "https://gw.example.com/vgi/", "https://gw.example.com/a/b?x=1", c28GenURL(r)})
+			for j := 0; j < k; j++ {
+				switch x := r.Intn(100); {
+				case x < 45 || j == 0 && x < 70:
+					if r.Chance(25) {
+						curRes = c28GenURL(r)
+					}
+					id := c28GenID(r)
+					if r.Chance(15) {
+						id = ""
+					}
+					sec := ""
+					if r.Chance(65) {
+						sec = c28GenID(r)
+					}
+					pe := Pick(r, []int{50, 80})
+					nj := 1
+					if r.Chance(4) {
+						nj = 0
+					}
+					toks = append(toks, "M:"+strings.ReplaceAll(c28MetaArgs(curRes, nj, id, r.Chance(40), sec, c28GenField(r, pe), c28GenField(r, pe)), " ", ":"))
+				case x < 70:
+					if r.Chance(60) && !strings.Contains(strings.Join(toks, " ")+" ", " A ") && (len(toks) == 0 || toks[0] != "A") {
+						toks = append(toks, "A") // SetOAuthPkce requires an authenticator
+					}
+					toks = append(toks, "K")
+				case x < 88:
+					toks = append(toks, "P:"+XS(Pick(r, []string{"", "/vgi", "/api/v1", "/tenants", "/x"})))
+				default:
+					toks = append(toks, "A")
+				}
+			}
+			lines = append(lines, "emitx "+strings.Join(toks, " "))
+		}
 		if r.Chance(50) {
 			lines = append(lines, "validate "+c28MetaArgs(res, nas, cid, flag, csec, dcid, dcsec))
 		}
@@ -605,6 +645,113 @@ func c28Exec(c *Case) {
 				c.Stat("emit-ok-dcid-without-cid")
 			}
 			c.Out(ml, "h "+c28Canonical(h)+" p "+ps)
+		case f[0] == "emitx" && len(f) >= 2:
+			// a history of ALL the setters that could touch the challenge, in any order, on one server; then a real 401.
+			// steps: M:<res>:<nAS>:<cid>:<flag>:<csec>:<dcid>:<dcsec> | K (SetOAuthPkce) | P:<prefix> (SetPrefix) | A (SetAuthenticate)
+			hs := vgirpc.NewHttpServer(vgirpc.NewServer())
+			reject := func(*http.Request) (*vgirpc.AuthContext, error) {
+				return nil, &vgirpc.RpcError{Type: "ValueError", Message: "unauthorized"}
+			}
+			var msteps, mfields []string
+			var last *vgirpc.OAuthResourceMetadata
+			lastURL, prefix := "", ""
+			haveAuth, bad := false, false
+			panicked := ""
+			func() {
+				defer func() {
+					if r := recover(); r != nil {
+						panicked = fmt.Sprint(r)
+					}
+				}()
+				for _, st := range f[1:] {
+					g := strings.Split(st, ":")
+					switch {
+					case g[0] == "M" && len(g) == 8:
+						nas, _ := strconv.Atoi(g[2])
+						m := c28Meta(UnXS(g[1]), nas, UnXS(g[3]), g[4] == "true", UnXS(g[5]), UnXS(g[6]), UnXS(g[7]))
+						murl, uerr := vgirpc.VerifC28MetadataURL(m.Resource)
+						menr := XS(murl)
+						if uerr != nil {
+							menr = "-"
+						}
+						mfields = append(mfields, menr+" "+strings.Join(g[1:], " "))
+						if err := hs.SetOAuthResourceMetadata(m); err != nil {
+							msteps = append(msteps, c28ErrKind(err))
+						} else {
+							msteps = append(msteps, "ok")
+							last, lastURL = m, murl
+						}
+					case g[0] == "K" && len(g) == 1:
+						if err := hs.SetOAuthPkce(vgirpc.OAuthPkceConfig{}); err != nil {
+							c.Stat("emitx-pkce-refused")
+						} else {
+							c.Stat("emitx-pkce-ok")
+							if last != nil && last.ClientSecret != "" {
+								c.Stat("emitx-pkce-ok-with-client-secret")
+							}
+						}
+					case g[0] == "P" && len(g) == 2:
+						prefix = UnXS(g[1])
+						hs.SetPrefix(prefix)
+						c.Stat("emitx-prefix")
+					case g[0] == "A" && len(g) == 1:
+						hs.SetAuthenticate(reject)
+						haveAuth = true
+					default:
+						bad = true
+					}
+				}
+				if !haveAuth {
+					hs.SetAuthenticate(reject) // something has to answer 401
+				}
+			}()
+			if bad {
+				c.Out(l, "err:bad-op")
+				continue
+			}
+			ml := fmt.Sprintf("emits %d", len(mfields))
+			if len(mfields) > 0 {
+				ml += " " + strings.Join(mfields, " ")
+			}
+			pre := "steps=" + strings.Join(msteps, ",") + " "
+			if panicked != "" {
+				c.Oracle("setter-panicked", fmt.Sprintf("%s: %s", l, panicked))
+				c.Out(ml, pre+"panic")
+				continue
+			}
+			hs.InitPages()
+			req := httptest.NewRequest("POST", prefix+"/some_method", nil)
+			req.Header.Set("Content-Type", "application/vnd.apache.arrow.stream")
+			w := httptest.NewRecorder()
+			hs.ServeHTTP(w, req)
+			vals := w.Header().Values("WWW-Authenticate")
+			c.Stat("emitx")
+			if last == nil {
+				if len(vals) != 0 {
+					c.Oracle("challenge-without-accepted-configuration", fmt.Sprintf("%s: %q", l, vals))
+					c.Out(ml, pre+"h "+c28Canonical(vals[0]))
+				} else {
+					c.Out(ml, pre+"none")
+				}
+				continue
+			}
+			if w.Code != http.StatusUnauthorized || len(vals) != 1 {
+				c.Oracle("no-challenge-on-401", fmt.Sprintf("%s: status %d, %d WWW-Authenticate values", l, w.Code, len(vals)))
+				c.Out(ml, pre+"err:no-challenge")
+				continue
+			}
+			h := vals[0]
+			ps, got := c28Parsed(h)
+			if !strings.Contains(last.Resource, "\"") {
+				// the LAST configured metadata and the URL derived from the RESOURCE, whatever other setters ran
+				c28Oracle(c, l, lastURL, last, got)
+				c28LocationOracle(c, l, last.Resource, got[0])
+			}
+			if strings.Contains(lastURL, "\"") {
+				c.Out("hdr "+XS(h), "p "+ps)
+				continue
+			}
+			c.Out(ml, pre+"h "+c28Canonical(h)+" p "+ps)
 		case f[0] == "emits" && len(f) >= 2:
 			// a configuration HISTORY on one server, then a real 401
 			k, _ := strconv.Atoi(f[1])
